@@ -9,8 +9,11 @@
    Hypotheses of the layout theorems = the situation the property speaks about: the
    executed task [t] has metadata and stands at the head of the queue [t :: rest]; task
    ids are unique (uuids) over the queue and the tasks [app] appended to it between the
-   function's Iterate and Filter steps.  [stop] is arbitrary (shell-operator passes nil =
-   constantly false). *)
+   function's Iterate and Filter steps.  [stop] is an ARBITRARY predicate: nil (constantly
+   false) for ordinary heads; since commit 7b8a7f4 taskHandleHookRun passes, for a
+   Synchronization head, "same-hook Synchronization with ExecuteOnSynchronization = false";
+   addon-operator passes its own.  The merged block is then the maximal prefix of the
+   following same-hook same-type tasks on which the predicate is false. *)
 From Verif Require Import Common C07_Model C07_Spec C07_Proofs.
 
 (* the whole decidable predicate P of C07_Spec holds of the model on EVERY input
